@@ -633,12 +633,60 @@ def frontier_probes(ctx, r, reps):
 
 
 # ------------------------------------------------------------------------------------------------ atomic replacement, observed at the rename
+def observe_upload(scratch, spelling, prior, name, data, stream, chunk):
+    """run `prior` uploads, then one upload of `name` with a spy on pathlib.Path.replace; returns (old map, seen, tree afterwards)"""
+    import pathlib
+    from replicat.backends.local import Local
+    case = localfs.LocalCase(scratch)
+    seen = {}
+    try:
+        s = case.enter(spelling)
+        b = Local(s)
+        old = {}
+        for o in prior:
+            b.upload(o['name'], bytes.fromhex(o['data']))
+            old[o['name']] = o['data']
+        orig = pathlib.Path.replace
+
+        def spy(self, target, _orig=orig):
+            pathlib.Path.replace = _orig          # observe with the unpatched method
+            try:
+                seen['tree'] = case.tree()[0]
+                seen['exists'] = b.exists(name)
+                seen['listed'] = sorted(b.list_files(''))
+                seen['old'] = b.download(name).hex() if seen['exists'] else None
+                seen['temp'] = os.path.basename(str(self))
+            finally:
+                pathlib.Path.replace = spy
+            return _orig(self, target)
+        pathlib.Path.replace = spy
+        try:
+            if stream:
+                b.upload_stream(name, io.BytesIO(data), len(data), chunk_size=chunk)
+            else:
+                b.upload(name, data)
+        finally:
+            pathlib.Path.replace = orig
+        return old, seen, case.tree()[0]
+    finally:
+        case.remove()
+
+
+def atomic_oracle(old, seen, name):
+    """None if fine, else (sig, what)"""
+    if 'tree' not in seen:
+        return 'local:upload:no-rename', 'the upload did not go through a rename of a temporary file'
+    if seen['exists'] != (name in old) or seen['old'] != old.get(name) or seen['listed'] != sorted(old):
+        return ('local:upload:intermediate-state-visible',
+                f'right before the rename the object {name!r} reads exists={seen["exists"]}, listing={seen["listed"]}; before the upload it was '
+                f'exists={name in old}, listing={sorted(old)}')
+    return None
+
+
 def atomic_upload_observations(ctx, r, n):
     """Every local upload goes through a temporary file and a rename.  The directory tree is observed right before the rename
     (spy on pathlib.Path.replace) and right after the call; both must be what the model's `uploadState` says (k = 3, 4), and
     through the adapter's own exists / download / list_files the object must read as the OLD one until the rename."""
-    import pathlib
-    from replicat.backends.local import Local
     out = ctx.out
     for _ in range(n):
         universe = [u for u in gen_universe(r, lambda s: True) if local_ok(u)]
@@ -647,51 +695,17 @@ def atomic_upload_observations(ctx, r, n):
         prior = [{'op': 'upload', 'name': r.choice(universe), 'data': r.randbytes(r.randint(0, 9)).hex()} for _ in range(r.randint(0, 4))]
         name = r.choice(universe)
         stream = r.random() < 0.4
+        chunk = r.choice([1, 1000])
         data = r.randbytes(r.choice([0, 1, 7, 2000]))
         spelling = r.choice([s for s in localfs.SPELLINGS if s not in localfs.DOT_SPELLINGS])
-        case = localfs.LocalCase(ctx.newdir())
-        seen = {}
-        try:
-            s = case.enter(spelling)
-            b = Local(s)
-            old = {}
-            for o in prior:
-                b.upload(o['name'], bytes.fromhex(o['data']))
-                old[o['name']] = o['data']
-            orig = pathlib.Path.replace
-
-            def spy(self, target, _orig=orig):
-                pathlib.Path.replace = _orig          # observe with the unpatched method
-                try:
-                    seen['tree'] = case.tree()[0]
-                    seen['exists'] = b.exists(name)
-                    seen['listed'] = sorted(b.list_files(''))
-                    seen['old'] = b.download(name).hex() if seen['exists'] else None
-                    seen['temp'] = os.path.basename(str(self))
-                finally:
-                    pathlib.Path.replace = spy
-                return _orig(self, target)
-            pathlib.Path.replace = spy
-            try:
-                if stream:
-                    b.upload_stream(name, io.BytesIO(data), len(data), chunk_size=r.choice([1, 1000]))
-                else:
-                    b.upload(name, data)
-            finally:
-                pathlib.Path.replace = orig
-            after = case.tree()[0]
-        finally:
-            case.remove()
+        old, seen, after = observe_upload(ctx.newdir(), spelling, prior, name, data, stream, chunk)
         out.evaluations += 1
         out.count('atomic-upload:' + ('overwrite' if name in old else 'new') + (':stream' if stream else ''))
-        replay = {'kind': 'atomic', 'prior': prior, 'name': name, 'data': data.hex(), 'root_spelling': spelling}
-        if 'tree' not in seen:
-            out.violation('local:upload:no-rename', 'the upload did not go through a rename of a temporary file', dict(replay))
+        replay = {'kind': 'atomic', 'prior': prior, 'name': name, 'data': data.hex(), 'root_spelling': spelling, 'stream': stream, 'chunk': chunk}
+        bad = atomic_oracle(old, seen, name)
+        if bad is not None:
+            out.violation(bad[0], bad[1], dict(replay, observed={k: v for k, v in seen.items() if k != 'tree'}))
             continue
-        if seen['exists'] != (name in old) or seen['old'] != old.get(name) or seen['listed'] != sorted(old):
-            out.violation('local:upload:intermediate-state-visible',
-                          f'right before the rename the object {name!r} reads exists={seen["exists"]}, listing={seen["listed"]}; before the upload it was exists={name in old}, listing={sorted(old)}',
-                          dict(replay, observed={k: v for k, v in seen.items() if k != 'tree'}))
         if ctx.drv is not None:
             leaf = name.rsplit('/', 1)[-1][:240]
             rnd = seen['temp'][len(leaf) + 1:-4] if seen['temp'].startswith(leaf + '_') and seen['temp'].endswith('.tmp') else None
@@ -946,13 +960,22 @@ def replay(path, drv):
             print(f'replay: operation #{i} {short(ops[i])}\n  observed {short(got[i])}\n  expected {short(exp[i])}')
             return 1
         if kind == 's3loop':
-            real = real_s3_loop([tuple(p) for p in rp['pages']], 12)
-            print('replay:', real)
-            return 1 if real != rp.get('expected', real) or True else 0
+            pages = [(p[0], [tuple(e) for e in p[1]]) for p in rp['pages']]
+            real = real_s3_loop(pages, 12)
+            expect = {'names': [x for _, el in pages for tag, x in el if tag == 'Key'], 'requests': len(pages)}
+            print('replay: observed', real, 'expected', expect)
+            return 1 if real != expect else 0
         if kind == 'b2loop':
-            real = real_b2_loop([tuple(p) for p in rp['pages']], 12)
-            print('replay:', real)
-            return 1
+            pages = [tuple(p) for p in rp['pages']]
+            real = real_b2_loop(pages, 12)
+            expect = {'names': [f for _, fs, _ in pages for f in fs], 'requests': len(pages)}
+            print('replay: observed', real, 'expected', expect)
+            return 1 if real != expect else 0
+        if kind == 'atomic':
+            old, seen, _ = observe_upload(scratch, rp['root_spelling'], rp['prior'], rp['name'], bytes.fromhex(rp['data']), rp.get('stream', False), rp.get('chunk', 1000))
+            bad = atomic_oracle(old, seen, rp['name'])
+            print('replay:', bad or 'the object reads as the old one until the rename')
+            return 1 if bad else 0
     finally:
         shutil.rmtree(WORK / str(os.getpid()), ignore_errors=True)
     print('replay kind not supported:', kind)
